@@ -558,9 +558,7 @@ double *_vnacal_new_solve_calc_weights(vnacal_new_solve_state_t *vnssp)
 	_vnacal_error(vcp, VNAERR_SYSTEM, "calloc: %s", strerror(errno));
 	return NULL;
     }
-    for (int sindex = 0; sindex < vnp->vn_systems; ++sindex) {
-	int k = 0;
-
+    for (int sindex = 0, k = 0; sindex < vnp->vn_systems; ++sindex) {
 	vs_start_system(vnssp, sindex);
 	while (vs_next_equation(vnssp)) {
 	    vnacal_new_equation_t *vnep = vnssp->vnss_vnep;
